@@ -238,7 +238,7 @@ def summarize_reach(specs, hits):
 
 # ---------------------------------------------------------------- M5 step meter
 class StepMeter:
-    """Logical time: number of Python function entries (PY_START). Raises
+    """Logical time: number of Python function entries (PY_START) plus taken jumps. Raises
     BudgetExceeded inside the monitored call when the budget is crossed, so the
     verdict never depends on wall clock."""
     TOOL = 4
@@ -251,9 +251,18 @@ class StepMeter:
             pass
         self.steps = 0
         self.budget = 0
+        # function entries and taken jumps (loop iterations): a loop that calls nothing is counted too
+        self.EVENTS = self.mon.events.PY_START | self.mon.events.JUMP
         self.mon.register_callback(self.TOOL, self.mon.events.PY_START, self._cb)
+        self.mon.register_callback(self.TOOL, self.mon.events.JUMP, self._cb3)
 
     def _cb(self, code, off):
+        self.steps += 1
+        if self.steps > self.budget:
+            self.mon.set_events(self.TOOL, 0)
+            raise BudgetExceeded('%d steps' % self.steps)
+
+    def _cb3(self, code, off, dest):
         self.steps += 1
         if self.steps > self.budget:
             self.mon.set_events(self.TOOL, 0)
@@ -262,7 +271,7 @@ class StepMeter:
     def start(self, budget):
         self.steps = 0
         self.budget = budget
-        self.mon.set_events(self.TOOL, self.mon.events.PY_START)
+        self.mon.set_events(self.TOOL, self.EVENTS)
 
     def stop(self):
         self.mon.set_events(self.TOOL, 0)
